@@ -156,9 +156,14 @@ def check(pid, tier):
         if bad or forb:
             proof_broken = "audit failed: %s %s" % ([a["name"] for a in bad], forb[:5])
     if regen.get("alt_differs") and not proof_broken:
-        # scratch-checkout mode: the tables/layout regenerated from that source differ from the ones
-        # the theorems were checked against (in /repo mode the file is rewritten and re-proved)
-        proof_broken = "tables / layout regenerated from %s differ from Generated/Tables.lean (see %s)" % (build.REPO, os.path.join(os.path.dirname(build.HARNESS), "Tables.lean"))
+        # scratch-checkout mode: a table regenerated from that source differs from the one the theorems were
+        # checked against (in /repo mode the file is rewritten and re-proved); it matters for this property
+        # when one of its theorem modules imports the generated module
+        closure = set(os.path.relpath(p, build.LEAN)[:-5].replace(os.sep, ".") for p in build.import_closure(pid, P.thm_modules))
+        hit = [m for m in regen["alt_differs"] if m in closure]
+        if hit:
+            proof_broken = "regenerated from %s: %s differ(s) from the generated module(s) the theorems were checked against (see %s)" % (
+                build.REPO, ", ".join(hit), os.path.dirname(build.HARNESS))
     if tier == "thorough" and ok:
         # independent re-check of the compiled theorem modules
         lc = []
